@@ -16,8 +16,8 @@ use std::{
 };
 use thiserror::Error;
 use wac_types::{
-    BorrowedKey, BorrowedPackageKey, DefinedType, ItemKind, Package, PackageKey, SubtypeChecker,
-    Type, TypeAggregator, Types, ValueType,
+    are_semver_compatible, BorrowedKey, BorrowedPackageKey, DefinedType, ItemKind, Package,
+    PackageKey, SubtypeChecker, Type, TypeAggregator, Types, ValueType,
 };
 use wasm_encoder::{
     Alias, ComponentBuilder, ComponentExportKind, ComponentNameSection, ComponentTypeRef,
@@ -1865,7 +1865,20 @@ impl<'a> CompositionGraphEncoder<'a> {
                 explicit_imports.insert(name.as_str(), n);
                 aggregator = aggregator
                     .aggregate(name, self.0.types(), node.item_kind, &mut checker)
-                    .unwrap();
+                    .map_err(|e| {
+                        // The import is on the same semver track as an implicit import
+                        // (or another explicit import) of an incompatible type
+                        let first = implicit_imports
+                            .iter()
+                            .find(|(implicit, _)| are_semver_compatible(implicit, name))
+                            .map_or(n, |(_, index)| *index);
+                        EncodeError::ImportTypeMergeConflict {
+                            import: name.clone(),
+                            first: NodeId(first),
+                            second: NodeId(n),
+                            source: e,
+                        }
+                    })?;
             }
         }
         Ok(aggregator)
